@@ -35,6 +35,32 @@ else:
     mpctx_Process = mpctx.Process
 
 
+def _keep_fasta_pairs_together(chunks: Iterator[memoryview]) -> Iterator[bytes]:
+    """
+    Regroup chunks of an interleaved FASTA file such that each chunk contains an
+    even number of records. (dnaio.read_chunks ensures this only for FASTQ.)
+    """
+    leftover = b""
+    for chunk in chunks:
+        data = leftover + bytes(chunk)
+        if not data.startswith(b">"):
+            # Not FASTA (or FASTA with comments): nothing we can do
+            yield data
+            leftover = b""
+            continue
+        if data.count(b"\n>") % 2 == 1:
+            yield data
+            leftover = b""
+        else:
+            # Odd number of records: keep the last one for the next chunk
+            split = data.rfind(b"\n>") + 1
+            if split > 0:
+                yield data[:split]
+            leftover = data[split:]
+    if leftover:
+        yield leftover
+
+
 class ReaderProcess(mpctx_Process):
     """
     Read chunks of FASTA or FASTQ data (single-end or paired) and send them to a worker.
@@ -56,6 +82,7 @@ class ReaderProcess(mpctx_Process):
         queue: multiprocessing.Queue,
         buffer_size: int,
         stdin_fd,
+        interleaved: bool = False,
     ):
         """
         Args:
@@ -83,6 +110,7 @@ class ReaderProcess(mpctx_Process):
         self.queue = queue
         self.buffer_size = buffer_size
         self.stdin_fd = stdin_fd
+        self.interleaved = interleaved
 
     def run(self):
         if self.stdin_fd != -1:
@@ -115,7 +143,10 @@ class ReaderProcess(mpctx_Process):
 
     def _read_chunks(self, *files) -> Iterator[Tuple[memoryview, ...]]:
         if len(files) == 1:
-            for chunk in dnaio.read_chunks(files[0], self.buffer_size):
+            chunks = dnaio.read_chunks(files[0], self.buffer_size)
+            if self.interleaved:
+                chunks = _keep_fasta_pairs_together(chunks)
+            for chunk in chunks:
                 yield (chunk,)
         elif len(files) == 2:
             for chunks in dnaio.read_paired_chunks(
@@ -323,6 +354,7 @@ class ParallelPipelineRunner(PipelineRunner):
             queue=self._need_work_queue,
             buffer_size=self._buffer_size,
             stdin_fd=fileno,
+            interleaved=inpaths.interleaved,
         )
         self._reader_process.daemon = True
         self._reader_process.start()
